@@ -157,13 +157,18 @@ def build_world(spec, init_seed):
             c.sampler.sample_points()
     o = spec["opt"]
     ocls = getattr(torch.optim, o["cls"])
+    # library defaults are used wherever the configuration does not say otherwise (as users do):
+    # state leaking between Solver instances through shared default arguments is part of C07's
+    # "for all histories"
+    okw = {}
+    if o.get("args"):
+        okw["optimizer_args"] = dict(o["args"])
     if o.get("sched"):
         scls = getattr(torch.optim.lr_scheduler, o["sched"]["cls"])
-        setting = tp.OptimizerSetting(ocls, lr=o["lr"], optimizer_args=dict(o.get("args", {})),
-                                      scheduler_class=scls, scheduler_args=dict(o["sched"]["args"]),
-                                      scheduler_frequency=int(o["sched"].get("freq", 1)))
+        setting = tp.OptimizerSetting(ocls, lr=o["lr"], scheduler_class=scls, scheduler_args=dict(o["sched"]["args"]),
+                                      scheduler_frequency=int(o["sched"].get("freq", 1)), **okw)
     else:
-        setting = tp.OptimizerSetting(ocls, lr=o["lr"], optimizer_args=dict(o.get("args", {})))
+        setting = tp.OptimizerSetting(ocls, lr=o["lr"], **okw)
     w.setting = setting
     w.solver = tp.solver.Solver(w.train, val_conditions=w.val, optimizer_setting=setting)
     return w
@@ -339,6 +344,10 @@ def run_c07(case):
     spec = case["spec"]
     out, stats = [], {}
     try:
+        if case.get("prelude"):
+            # an earlier, unrelated training in the same process (other lr, other optimizer class)
+            run_solver(case["prelude"], case["rng"] + 1, None, record=False)
+            stats["preludes"] = 1
         ref = run_reference(spec, case["rng"], case.get("fault"))
         sol = run_solver(spec, case["rng"], case.get("fault"))
     except Exception as ex:
